@@ -64,6 +64,8 @@ def run(d, props):
             print(p, "rc=%d" % rc, *lines, sep="\n  ")
     finally:
         sh("git checkout -- . && git clean -fdq netqasm", cwd=REPO)
+        # evidence written while a seeded change was applied must not be kept
+        sh("git checkout -- evidence", cwd=VERIF)
     return res
 
 
